@@ -298,11 +298,15 @@ def uniform_refinement(image: darsia.Image, levels: int) -> darsia.Image:
                     k = np.arange(1, coarse_axis_length).reshape(
                         [-1 if i == j else 1 for j in range(array.ndim)]
                     )
-                    array = np.multiply(1.0, sub_array_0)
+                    # NOTE: Scale each contribution before summing (the sum of unscaled
+                    # contributions of large finite values may overflow).
+                    scaling = coarse_axis_length / axis_length
+                    array = np.multiply(scaling, sub_array_0)
                     weight_1 = (k / coarse_axis_length).astype(array.dtype)
-                    array[i_slice(slice(1, None))] += weight_1 * sub_array_1
-                    array[i_slice(slice(0, -1))] += (1 - weight_1) * sub_array_1
-                    array *= coarse_axis_length / axis_length
+                    array[i_slice(slice(1, None))] += (scaling * weight_1) * sub_array_1
+                    array[i_slice(slice(0, -1))] += (
+                        scaling * (1 - weight_1)
+                    ) * sub_array_1
 
     # Return resized image
     meta = image.metadata()
